@@ -349,8 +349,11 @@ def gen_catch(rnd):
     steps[1]["acts"][2]["copy"] = ["fails2"]
 
     def handler(name, for_, mx):
-        mode = rnd.choice(["again", "again", "stop", "raise", "skip"])
-        if mode == "again":
+        mode = rnd.choice(["again", "again", "stop", "raise", "skip", "again_send"])
+        if mode == "again_send":
+            # re-enter the lineage through ctx.send_event (and return None) instead of through the returned event
+            acts = [{"k": "send", "type": "EvA", "items": [{"lat": [0], "fails": rnd.choice([0, att1]), "fails2": rnd.choice([0, att2])}]}, {"k": "ret", "type": None}]
+        elif mode == "again":
             # re-enter the lineage: emit a fresh EvA that may fail again (fails decided by payload)
             acts = [{"k": "ret", "type": "EvA", "pay": {"lat": [0], "fails": rnd.choice([0, att1]), "fails2": rnd.choice([0, att2])}}]
         elif mode == "stop":
